@@ -45,6 +45,12 @@ def requery_history(rng, kchoices):
             {"a": "Solve", "k": k()}, {"a": "Destroy"}]
 
 
+def early_data_history(rng, kchoices):
+    """getPlannerData() on a planner that has not been set up yet, then an ordinary interrupted solve."""
+    return [{"a": "SetPdef", "p": "A"}, {"a": "GetPlannerData"}, {"a": "Solve", "k": rng.choice(kchoices)},
+            {"a": "GetPlannerData"}, {"a": "Destroy"}]
+
+
 def _is_walk(out, ops):
     """True iff the history is a walk through the exported state graph of PlannerLifecycle.tla."""
     s = 0
@@ -61,7 +67,7 @@ def _jobs(tier, out):
     if tier == "quick":
         n_hist, maxlen, sweep_ks, sweep_k2, n_requery = 8, 8, list(range(0, 22)), ["k60"], 3
     else:
-        n_hist, maxlen, sweep_ks, sweep_k2, n_requery = 60, 10, list(range(0, 90)) + [100, 150, 250, 400], ["k3", "k150", "inf"], 20
+        n_hist, maxlen, sweep_ks, sweep_k2, n_requery = 150, 10, list(range(0, 140)) + [150, 200, 250, 400], ["k3", "k150", "inf"], 40
     jobs, jid = [], 0
     for planner in PLANNERS:
         hs = [c03.random_history(out, rng, maxlen, c03.KNAMES) for _ in range(n_hist)]
@@ -69,6 +75,8 @@ def _jobs(tier, out):
             hs.append(c03.sweep_history(k, rng.choice(sweep_k2)))
         for _ in range(n_requery):
             hs.append(requery_history(rng, ["k8", "k34", "k150", "k400", "inf"]))
+        for _ in range(max(1, n_requery // 3)):
+            hs.append(early_data_history(rng, ["k5", "k60", "k400"]))
         for h in hs:
             if not _is_walk(out, h):
                 raise FrameworkError("history is not a walk of the life-cycle model: %s" % h)
@@ -172,7 +180,17 @@ def control_lifecycle(ck, tier, graph=None, binary=None):
     jobs = _jobs(tier, out)
     jpath = os.path.join(WORK, "c03ctl-jobs-%d.ndjson" % os.getpid())
     vlib.write_ndjson(jpath, jobs)
-    trace, total, notes = planrun.run_sharded(binary, "c03ctl", jpath, os.path.join(WORK, "c03ctl-trace-%d" % os.getpid()))
+    # glibc fills every malloc'ed / freed block with a byte pattern: a read of an uninitialised member or of
+    # freed memory no longer depends on what the heap happened to contain (deterministic verdicts)
+    saved = os.environ.get("MALLOC_PERTURB_")
+    os.environ["MALLOC_PERTURB_"] = "165"
+    try:
+        trace, total, notes = planrun.run_sharded(binary, "c03ctl", jpath, os.path.join(WORK, "c03ctl-trace-%d" % os.getpid()))
+    finally:
+        if saved is None:
+            del os.environ["MALLOC_PERTURB_"]
+        else:
+            os.environ["MALLOC_PERTURB_"] = saved
     for n in notes:
         log("[C03 control] " + n)
     rows, verdicts = _judge(trace)
@@ -187,7 +205,9 @@ def control_lifecycle(ck, tier, graph=None, binary=None):
         pl = (o or r).get("planner", r.get("planner", "?"))
         job = jobs_by_id.get((o or r).get("job"))
         for clause in sorted(b["failed"]):
-            rp = ck.replay_file("ctrl-job-%s-%s.json" % (pl, clause), json.dumps({"job": job, "event": r}, indent=1))
+            if clause in ("Crash", "Hang"):
+                clause += ":" + str(r.get("op", "?"))     # the call it happened in
+            rp = ck.replay_file("ctrl-job-%s-%s.json" % (pl, clause.replace(":", "-")), json.dumps({"job": job, "event": r}, indent=1))
             ck.violation("ctrl:%s:%s" % (pl, clause),
                          "control planner %s on %s, history %s: event %s fails clause '%s' (status %s, k=%s, evals=%s, live=%s)" %
                          (pl, (job or {}).get("system"), _ops_text(job), r["e"], clause, r.get("status"), r.get("k"),
@@ -253,6 +273,7 @@ def replay_control(path):
     out = os.path.join(wd, "ctrl-rerun.ndjson")
     if os.path.exists(out):
         os.unlink(out)
+    os.environ["MALLOC_PERTURB_"] = "165"
     planrun.run_shard(binary, "c03ctl", jp, out, 0, 1)
     rows, verdicts = _judge(out)
     fails = sorted({c for b in verdicts for c in b["failed"]})
